@@ -59,14 +59,35 @@ def Inv (s : St α) : Prop := s.nGroups = s.groupSpecs.length ∧ s.nJobs = s.jo
 
 theorem inv_init : Inv (St.init : St α) := ⟨rfl, rfl⟩
 
+/-- a submit with an injected request failure either behaves like the plain submit (assertion, or there is no k-th
+request) or fails: nothing but `created` changes -/
+theorem step_failing (size : α → Nat) (s : St α) (maxBytes maxN k : Nat) :
+    step size s (.submitFailing maxBytes maxN k) = step size s (.submit maxBytes maxN) ∨
+    ∃ c, step size s (.submitFailing maxBytes maxN k) = ({ s with created := c }, some .failed) := by
+  simp only [step]
+  cases bunchesOf size s maxBytes maxN with
+  | none => left; rfl
+  | some bs =>
+    simp only
+    split
+    · left; rfl
+    · right; exact ⟨_, rfl⟩
+
 theorem inv_step (size : α → Nat) (s : St α) (op : Op α) (h : Inv s) : Inv (step size s op).1 := by
   cases op with
   | createGroup x => exact ⟨by simp [step, h.1], h.2⟩
   | createJob x => exact ⟨h.1, by simp [step, h.2]⟩
   | submit b n =>
     cases hb : bunchesOf size s b n with
-    | none => simpa [step, hb] using h
-    | some bs => simp [step, hb, Inv]
+    | none => simpa [step, finish, hb] using h
+    | some bs => simp [step, finish, hb, Inv]
+  | submitFailing b n k =>
+    rcases step_failing size s b n k with e | ⟨c, e⟩
+    · rw [e]
+      cases hb : bunchesOf size s b n with
+      | none => simpa [step, finish, hb] using h
+      | some bs => simp [step, finish, hb, Inv]
+    · rw [e]; exact h
 
 /-- everything about one `submit()` -/
 theorem step_submit (size : α → Nat) (s : St α) (maxBytes maxN : Nat) :
@@ -88,7 +109,7 @@ theorem step_submit (size : α → Nat) (s : St α) (maxBytes maxN : Nat) :
     simp only [Wire.groups, Wire.jobs] at hg hj
     cases hc : s.created with
     | false =>
-      refine ⟨bs, .sent ⟨s.groupSpecs.length, s.jobSpecs.length, bs⟩, rfl, by simp [step, hb, hc], ?_, ?_, ?_⟩
+      refine ⟨bs, .sent ⟨s.groupSpecs.length, s.jobSpecs.length, bs⟩, rfl, by simp [step, finish, hb, hc], ?_, ?_, ?_⟩
       · simpa [Result.groups, Wire.groups] using hg
       · simpa [Result.jobs, Wire.jobs] using hj
       · intro w hw; cases hw; exact ⟨rfl, Or.inl ⟨rfl, rfl, rfl⟩⟩
@@ -101,9 +122,9 @@ theorem step_submit (size : α → Nat) (s : St α) (maxBytes maxN : Nat) :
           have := congrArg List.length hf; simp at this; exact List.eq_nil_of_length_eq_zero (by omega)
         have h2 : s.jobSpecs = [] := by
           have := congrArg List.length hf; simp at this; exact List.eq_nil_of_length_eq_zero (by omega)
-        refine ⟨[], .quiet, rfl, by simp [step, hb, hc], by simp [Result.groups, h1], by simp [Result.jobs, h2], ?_⟩
+        refine ⟨[], .quiet, rfl, by simp [step, finish, hb, hc], by simp [Result.groups, h1], by simp [Result.jobs, h2], ?_⟩
         intro w hw; cases hw
-      · refine ⟨bs, .sent ⟨s.nGroups, s.nJobs, bs⟩, rfl, by simp [step, hb, hc, he], ?_, ?_, ?_⟩
+      · refine ⟨bs, .sent ⟨s.nGroups, s.nJobs, bs⟩, rfl, by simp [step, finish, hb, hc, he], ?_, ?_, ?_⟩
         · simpa [Result.groups, Wire.groups] using hg
         · simpa [Result.jobs, Wire.jobs] using hj
         · intro w hw; cases hw; exact ⟨rfl, Or.inr ⟨rfl, rfl, rfl⟩⟩
@@ -132,6 +153,20 @@ theorem run_groups (size : α → Nat) : ∀ (ops : List (Op α)) (s : St α),
       · have := ih (⟨[], 0, [], 0, true⟩ : St α)
         simp only [run, hs, Option.toList, createdGroups, List.flatMap_cons, List.cons_append, List.nil_append] at this ⊢
         rw [List.append_assoc, this, hg]
+    | submitFailing b n k =>
+      rcases step_failing size s b n k with e | ⟨c, e⟩
+      · rcases step_submit size s b n with ⟨_, hs⟩ | ⟨bs, r, _, hs, hg, _, _⟩
+        · have := ih s
+          rw [hs] at e
+          simp only [run, e, Option.toList, createdGroups, List.flatMap_cons, List.cons_append, List.nil_append, Result.groups] at this ⊢
+          simpa using this
+        · have := ih (⟨[], 0, [], 0, true⟩ : St α)
+          rw [hs] at e
+          simp only [run, e, Option.toList, createdGroups, List.flatMap_cons, List.cons_append, List.nil_append] at this ⊢
+          rw [List.append_assoc, this, hg]
+      · have := ih ({ s with created := c })
+        simp only [run, e, Option.toList, createdGroups, List.flatMap_cons, List.cons_append, List.nil_append, Result.groups] at this ⊢
+        simpa using this
 
 theorem run_jobs (size : α → Nat) : ∀ (ops : List (Op α)) (s : St α),
     ((run size s ops).2.flatMap Result.jobs) ++ (run size s ops).1.jobSpecs = s.jobSpecs ++ createdJobs ops := by
@@ -157,6 +192,20 @@ theorem run_jobs (size : α → Nat) : ∀ (ops : List (Op α)) (s : St α),
       · have := ih (⟨[], 0, [], 0, true⟩ : St α)
         simp only [run, hs, Option.toList, createdJobs, List.flatMap_cons, List.cons_append, List.nil_append] at this ⊢
         rw [List.append_assoc, this, hj]
+    | submitFailing b n k =>
+      rcases step_failing size s b n k with e | ⟨c, e⟩
+      · rcases step_submit size s b n with ⟨_, hs⟩ | ⟨bs, r, _, hs, _, hj, _⟩
+        · have := ih s
+          rw [hs] at e
+          simp only [run, e, Option.toList, createdJobs, List.flatMap_cons, List.cons_append, List.nil_append, Result.jobs] at this ⊢
+          simpa using this
+        · have := ih (⟨[], 0, [], 0, true⟩ : St α)
+          rw [hs] at e
+          simp only [run, e, Option.toList, createdJobs, List.flatMap_cons, List.cons_append, List.nil_append] at this ⊢
+          rw [List.append_assoc, this, hj]
+      · have := ih ({ s with created := c })
+        simp only [run, e, Option.toList, createdJobs, List.flatMap_cons, List.cons_append, List.nil_append, Result.jobs] at this ⊢
+        simpa using this
 
 theorem inv_run (size : α → Nat) : ∀ (ops : List (Op α)) (s : St α), Inv s → Inv (run size s ops).1 := by
   intro ops
@@ -197,6 +246,82 @@ theorem run_announced (size : α → Nat) : ∀ (ops : List (Op α)) (s : St α)
           simp only [Option.toList, List.mem_singleton] at hw
           subst hw
           exact step_announced size s b n h (s' := (step size s (.submit b n)).1) (by rw [← hr])
+      | submitFailing b n k =>
+        rcases step_failing size s b n k with e | ⟨c, e⟩
+        · rw [e] at hw
+          cases hr : (step size s (.submit b n)).2 with
+          | none => rw [hr] at hw; simp at hw
+          | some r =>
+            rw [hr] at hw
+            simp only [Option.toList, List.mem_singleton] at hw
+            subst hw
+            exact step_announced size s b n h (s' := (step size s (.submit b n)).1) (by rw [← hr])
+        · rw [e] at hw; simp at hw
     · exact ih _ (inv_step size s op h) w hw
+
+/-- an attempt that fails (request error) or is stopped by an assertion leaves every pending buffer as it was -/
+theorem step_unsuccessful_keeps (size : α → Nat) (s : St α) (op : Op α) (s' : St α) (r : Result α)
+    (hop : (∃ b n, op = .submit b n) ∨ (∃ b n k, op = .submitFailing b n k))
+    (h : step size s op = (s', some r)) (hr : r = .failed ∨ r = .raised) :
+    s'.groupSpecs = s.groupSpecs ∧ s'.jobSpecs = s.jobSpecs ∧ s'.nGroups = s.nGroups ∧ s'.nJobs = s.nJobs := by
+  have plain : ∀ b n, step size s (.submit b n) = (s', some r) → s'.groupSpecs = s.groupSpecs ∧ s'.jobSpecs = s.jobSpecs ∧
+      s'.nGroups = s.nGroups ∧ s'.nJobs = s.nJobs := by
+    intro b n h
+    simp only [step] at h
+    cases hb : bunchesOf size s b n with
+    | none =>
+      rw [hb] at h
+      simp only [Prod.mk.injEq] at h
+      rw [← h.1]; exact ⟨rfl, rfl, rfl, rfl⟩
+    | some bs =>
+      rw [hb] at h
+      simp only [finish, Prod.mk.injEq, Option.some.injEq] at h
+      obtain ⟨_, h⟩ := h
+      rcases hr with rfl | rfl
+      · split at h
+        · cases h
+        · split at h <;> cases h
+      · split at h
+        · cases h
+        · split at h <;> cases h
+  rcases hop with ⟨b, n, rfl⟩ | ⟨b, n, k, rfl⟩
+  · exact plain b n h
+  · rcases step_failing size s b n k with e | ⟨c, e⟩
+    · rw [e] at h; exact plain b n h
+    · rw [e] at h
+      simp only [Prod.mk.injEq] at h
+      rw [← h.1]; exact ⟨rfl, rfl, rfl, rfl⟩
+
+/-- any number of unsuccessful attempts in a row leave the pending buffers as they were -/
+theorem run_unsuccessful_keeps (size : α → Nat) : ∀ (ops : List (Op α)) (s : St α),
+    (∀ op ∈ ops, (∃ b n, op = .submit b n) ∨ (∃ b n k, op = .submitFailing b n k)) →
+    (∀ r ∈ (run size s ops).2, r = .failed ∨ r = .raised) →
+    (run size s ops).1.groupSpecs = s.groupSpecs ∧ (run size s ops).1.jobSpecs = s.jobSpecs ∧
+    (run size s ops).1.nGroups = s.nGroups ∧ (run size s ops).1.nJobs = s.nJobs := by
+  intro ops
+  induction ops with
+  | nil => intro s _ _; exact ⟨rfl, rfl, rfl, rfl⟩
+  | cons op ops ih =>
+    intro s hops hres
+    have hop := hops op (by simp)
+    cases hst : step size s op with
+    | mk s1 r1 =>
+      have hr1 : ∃ r, r1 = some r := by
+        rcases hop with ⟨b, n, rfl⟩ | ⟨b, n, k, rfl⟩
+        · rcases step_submit size s b n with ⟨_, e⟩ | ⟨_, r, _, e, _⟩
+          · rw [e] at hst; cases hst; exact ⟨_, rfl⟩
+          · rw [e] at hst; cases hst; exact ⟨_, rfl⟩
+        · rcases step_failing size s b n k with e | ⟨c, e⟩
+          · rcases step_submit size s b n with ⟨_, e2⟩ | ⟨_, r, _, e2, _⟩
+            · rw [e, e2] at hst; cases hst; exact ⟨_, rfl⟩
+            · rw [e, e2] at hst; cases hst; exact ⟨_, rfl⟩
+          · rw [e] at hst; cases hst; exact ⟨_, rfl⟩
+      obtain ⟨r, rfl⟩ := hr1
+      simp only [run, hst] at hres ⊢
+      have hr := hres r (by simp)
+      obtain ⟨a1, a2, a3, a4⟩ := step_unsuccessful_keeps size s op s1 r hop hst hr
+      obtain ⟨b1, b2, b3, b4⟩ := ih s1 (fun o ho => hops o (List.mem_cons_of_mem _ ho))
+        (fun x hx => hres x (by simp [hx]))
+      exact ⟨b1.trans a1, b2.trans a2, b3.trans a3, b4.trans a4⟩
 
 end HailVerif.Submit
